@@ -9,7 +9,7 @@ import oracle
 import xmlmut
 
 LEVEL = 'exploration'
-SEEDS = [('rich_ta.xml', (1, 0)), ('project.xml', (1, 0)), ('old_syntax.xml', (0, 1)), ('lsc.xml', (1, 0))]
+SEEDS = [('rich_ta.xml', (1, 0)), ('project.xml', (1, 0)), ('old_syntax.xml', (0, 1)), ('lsc.xml', (1, 0)), ('dynamic.xml', (1, 0))]
 RULE = ('layer 1: every single edit (drop/empty/duplicate-value/bogus attribute; drop/duplicate/move/empty/rename element; '
         'empty/blank/comment-only/unterminated-comment/stray-token/half text block; truncation after every ">" and every '
         '97th byte) of 4 seed documents x {4.x,3.x syntax} x {Document+TypeChecker+FeatureChecker, PrettyPrinter} x '
